@@ -225,8 +225,8 @@ func init() {
 		Rule: "documents: 12 same-line prefixes (tab, strings with escapes, 2/3/4-byte characters, long brackets incl. multi-line, block comments) singly (quick) and in all pairs (thorough) x 10 occurrence kinds of identifier abc x {LF, CRLF, CR} x 4 kinds of lines above; " +
 			"requests: all diagnostics (all checks on), definition at both ends of every name token, references, highlight and rename at every name token, documentSymbol, workspace/symbol; " +
 			"oracle: start <= end, both ends are positions of the client's text (character <= UTF-16 line length), and for definition/references/highlight/rename edits and type 2/3/4 diagnostics the UTF-16 slice under the range is the identifier. states = ranges judged; non-trivial = documents with a non-blank prefix",
-		Assumptions: []string{"the client's text and the reference line table (internal/textref: LF, CRLF, CR; UTF-16 units) are the ground truth", "ranges in other files are not judged"},
+		Assumptions: []string{"the client's text and the reference line table (internal/textref: LF, CRLF, CR; UTF-16 units) are the ground truth", "in the single-file space ranges in other files are not judged; the two-file space judges every range in the file it names"},
 		Flavour:     "prod+overlay", QuickBudgetS: 120, ThoroughBudgetS: 900,
-		Spaces: func(tier string) []*core.Space { return []*core.Space{c04Space(tier)} },
+		Spaces: func(tier string) []*core.Space { return []*core.Space{c04Space(tier), c04MultiSpace()} },
 	})
 }
